@@ -379,6 +379,38 @@ def _local_direction(f):
     return sd, 3
 
 
+def _name_local_direction(f):
+    """When the local direction dot(R.T, d) is used in place instead of being named, analyse an equivalent function in which it
+    is assigned to a synthetic local first (the rule tracks components of a NAMED local direction)."""
+    import copy
+    params = f.params()
+    sd = params[0]
+    for st in f.node.body:
+        if isinstance(st, ast.Assign) and isinstance(st.targets[0], ast.Name) and dot_args(st.value) is not None and sd in [u(x) for x in dot_args(st.value)]:
+            return f
+    node = copy.deepcopy(f.node)
+    hits = [n for n in ast.walk(node) if dot_args(n) is not None and sd in [u(x) for x in dot_args(n)]]
+    if not hits or len({u(h) for h in hits}) != 1:
+        return f
+    txt = u(hits[0])
+    first = copy.deepcopy(hits[0])
+
+    class R(ast.NodeTransformer):
+        def visit_Call(self, n):
+            if u(n) == txt:
+                return ast.copy_location(ast.Name(id="local_dir__", ctx=ast.Load()), n)
+            return self.generic_visit(n)
+    node = R().visit(node)
+    k = 1 if (node.body and isinstance(node.body[0], ast.Expr) and isinstance(node.body[0].value, ast.Constant)) else 0
+    asg = ast.Assign(targets=[ast.Name(id="local_dir__", ctx=ast.Store())], value=first)
+    ast.copy_location(asg, node.body[k] if k < len(node.body) else node)
+    node.body.insert(k, asg)
+    ast.fix_missing_locations(node)
+    g = copy.copy(f)
+    g.node = node
+    return g
+
+
 def r_signalign(idx, rep, rule="R-SIGNALIGN"):
     rep.rule(rule, "closed-form support functions: on every return path each local component of the support point is a "
                    "non-negative multiple of the same direction component, a constant whose sign the path's tests justify, or "
@@ -386,7 +418,7 @@ def r_signalign(idx, rep, rule="R-SIGNALIGN"):
     names = ["support_function_cylinder", "support_function_capsule", "support_function_ellipsoid", "support_function_box",
              "support_function_sphere", "support_function_disk", "support_function_ellipse", "support_function_cone"]
     for name in names:
-        f = idx.func(G + "::" + name)
+        f = _name_local_direction(idx.func(G + "::" + name))
         dname, n = _local_direction(f)
         sa = SignAlign(f, dname, n)
         paths = sa.run()
